@@ -37,7 +37,7 @@ structure HWRow where
   width : Nat
   hi : Bool
   exec : Option HWExec
-  deriving Repr, Inhabited
+  deriving Repr, DecidableEq, Inhabited
 
 /-- Byte positions `lo .. hi-1` as a bitset. -/
 def byteRange (lo hi : Nat) : Nat := 2 ^ hi - 2 ^ lo
@@ -128,5 +128,115 @@ def Coll.after (c : Coll) : List (Nat × Nat) → Coll
 def Coll.run (c : Coll) : List (Nat × Nat) → List Virt
   | [] => []
   | (k, s) :: rest => (c.alloc k s).1 :: Coll.run (c.alloc k s).2 rest
+
+/-! ### The statement of C20, per register / per conversion.
+
+These are the declarative clauses of the property.  They are decidable; the
+theorems of `Props/C20.lean` prove them for the model over the regenerated and
+measured tables (for all inputs), and the driver evaluates the very same
+propositions (`decide`) on the implementation's outputs (`accept-…` requests). -/
+
+/-- Pseudo registers (FP, PC, SB, pseudo-SP; kind 0, mask 0) are not hardware registers. -/
+def physical (r : RegRow) : Prop := r.kind ≠ kindPseudo
+instance (r : RegRow) : Decidable (physical r) := by unfold physical; infer_instance
+
+/-- The oracle rows measured for register `r`: its assembler name in the width
+context of its kind and size. -/
+def Matches (r : RegRow) (h : HWRow) : Prop := h.name = r.name ∧ h.ctxKind = r.kind ∧ h.ctxSize = r.size
+instance (r : RegRow) (h : HWRow) : Decidable (Matches r h) := by unfold Matches; infer_instance
+
+/-- The bytes of the full register a view addresses, from the decoded operand
+width and the high-byte flag. -/
+def viewBytes (width : Nat) (hi : Bool) : Nat := if hi then byteRange 1 2 else byteRange 0 width
+
+def ExecAgrees (r : RegRow) : Option HWExec → Prop
+  | none => True
+  | some e => e.cls = r.kind ∧ e.num = r.idx ∧ e.data = maskBytes r.mask
+instance (r : RegRow) (e : Option HWExec) : Decidable (ExecAgrees r e) := by
+  cases e <;> unfold ExecAgrees <;> infer_instance
+
+/-- Register `r` of avo's table agrees with one measurement: the name assembled
+(and decoded consistently), to the register class, number and operand width avo
+reports; the mask denotes exactly the bytes that view addresses; and, when the
+write was executed, the CPU changed exactly that architectural register and the
+bytes that took the written value are exactly the bytes of the mask. -/
+def HwAgrees (r : RegRow) (h : HWRow) : Prop :=
+  h.ok = true ∧ h.cls = r.kind ∧ h.num = r.idx ∧ h.width = r.size ∧
+  maskBytes r.mask = viewBytes h.width h.hi ∧ ExecAgrees r h.exec
+instance (r : RegRow) (h : HWRow) : Decidable (HwAgrees r h) := by unfold HwAgrees; infer_instance
+
+/-- C20 for one physical register `r` against its group of measurements `g`
+(all measurements made for that register, one per instruction encoding): there
+is at least one, each was made with `r`'s name in `r`'s width context and
+agrees; the size is the byte count of the mask and `Spec.Size` of it; the id is
+`newid 0 kind idx`. -/
+def RegOK (g : List HWRow) (r : RegRow) : Prop :=
+  physical r ∧ g ≠ [] ∧ (∀ h ∈ g, Matches r h ∧ HwAgrees r h) ∧
+  r.mask < 128 ∧ r.size = byteCount (maskBytes r.mask) ∧ specSize r.mask = r.size ∧
+  r.kind < 256 ∧ r.idx < 65536 ∧ r.id = newid 0 r.kind r.idx
+instance (g : List HWRow) (r : RegRow) : Decidable (RegOK g r) := by unfold RegOK; infer_instance
+
+/-- Same identity exactly for the same hardware register (class and number as
+measured), for registers `r`, `r'` with measurement groups `g`, `g'`. -/
+def IdentOK (g g' : List HWRow) (r r' : RegRow) : Prop :=
+  ∀ h ∈ g, ∀ h' ∈ g', (r.id = r'.id ↔ (h.cls = h'.cls ∧ h.num = h'.num))
+instance (g g' : List HWRow) (r r' : RegRow) : Decidable (IdentOK g g' r r') := by unfold IdentOK; infer_instance
+
+/-- All measurements of a flat table made for `r` (used by the driver, where
+the register comes from the implementation rather than from a table position). -/
+def groupOf (oracle : List (List HWRow)) (r : RegRow) : List HWRow :=
+  oracle.flatten.filter (fun h => decide (Matches r h))
+
+/-- Outcome of converting a physical register (kind, idx, id) to spec `s`:
+`none` (nil / panic) exactly when the view does not exist in hardware, otherwise
+a register `(id', mask', size')` of the same identity, the requested mask and
+its byte count as size. -/
+def AsOK (kind idx id s : Nat) : Option (Nat × Nat × Nat) → Prop
+  | none => hwViewExists kind idx s = false
+  | some (id', m', sz') => hwViewExists kind idx s = true ∧ id' = id ∧ m' = s ∧ sz' = byteCount (maskBytes s)
+instance (kind idx id s : Nat) (o : Option (Nat × Nat × Nat)) : Decidable (AsOK kind idx id s o) := by
+  cases o <;> unfold AsOK <;> infer_instance
+
+/-- Outcome of converting a virtual register: never fails, same identity,
+requested mask, its byte count as size. -/
+def VAsOK (id s : Nat) : Option (Nat × Nat × Nat) → Prop
+  | none => False
+  | some (id', m', sz') => id' = id ∧ m' = s ∧ sz' = byteCount (maskBytes s)
+instance (id s : Nat) (o : Option (Nat × Nat × Nat)) : Decidable (VAsOK id s o) := by
+  cases o <;> unfold VAsOK <;> infer_instance
+
+/-- Two allocations (numbers `i`, `j`) of kind `k` from one collection got `idi`, `idj`. -/
+def FreshOK (k i j idi idj : Nat) : Prop :=
+  idIsVirtual idi = true ∧ idIsVirtual idj = true ∧ idKind idi = k ∧ idKind idj = k ∧ (i ≠ j → idi ≠ idj)
+instance (k i j a b : Nat) : Decidable (FreshOK k i j a b) := by unfold FreshOK; infer_instance
+
+/-- `operand` classification predicates, in the order
+IsRegister IsPseudo IsR8 IsR16 IsR32 IsR64 IsXMM IsYMM IsZMM IsK IsAL IsCL IsAX IsEAX IsRAX IsXMM0,
+as computed by operand/checks.go from kind and size (and, for the six
+specific-register predicates, the physical register's index and mask). -/
+def classBits (isPhys : Bool) (kind idx mask size : Nat) : List Bool :=
+  [true, kind == kindPseudo,
+   kind == kindGP && size == 1, kind == kindGP && size == 2, kind == kindGP && size == 4, kind == kindGP && size == 8,
+   kind == kindVector && size == 16, kind == kindVector && size == 32, kind == kindVector && size == 64,
+   kind == kindOpmask,
+   isPhys && kind == kindGP && idx == 0 && mask == S8L, isPhys && kind == kindGP && idx == 1 && mask == S8L,
+   isPhys && kind == kindGP && idx == 0 && mask == S16, isPhys && kind == kindGP && idx == 0 && mask == S32,
+   isPhys && kind == kindGP && idx == 0 && mask == S64, isPhys && kind == kindVector && idx == 0 && mask == S128]
+
+/-- The same classification judged by the hardware: what the name decodes to. -/
+def hwClassBits (h : HWRow) : List Bool :=
+  [true, false,
+   h.cls == 1 && h.width == 1, h.cls == 1 && h.width == 2, h.cls == 1 && h.width == 4, h.cls == 1 && h.width == 8,
+   h.cls == 2 && h.width == 16, h.cls == 2 && h.width == 32, h.cls == 2 && h.width == 64,
+   h.cls == 3,
+   h.cls == 1 && h.num == 0 && h.width == 1 && !h.hi, h.cls == 1 && h.num == 1 && h.width == 1 && !h.hi,
+   h.cls == 1 && h.num == 0 && h.width == 2, h.cls == 1 && h.num == 0 && h.width == 4,
+   h.cls == 1 && h.num == 0 && h.width == 8, h.cls == 2 && h.num == 0 && h.width == 16]
+
+/-- The operand classification of a physical register is the hardware's
+(`g`: the measurements made for that register). -/
+def ClassOK (g : List HWRow) (bits : List Bool) : Prop :=
+  g ≠ [] ∧ ∀ h ∈ g, bits = hwClassBits h
+instance (g : List HWRow) (b : List Bool) : Decidable (ClassOK g b) := by unfold ClassOK; infer_instance
 
 end Avo.Reg
